@@ -49,13 +49,15 @@ def gen_times(rng, n, T, per_frame=3):
             return ts
 
 
-def gen_forest(rng, T=None, merge_p=0.06):
+def gen_forest(rng, T=None, merge_p=0.06, zero_p=0.0):
     """random forest: 3-8 nodes, non-contiguous ids, binary divisions, frame-skipping edges, several
     lineages; with probability merge_p one node gets a second parent (not a valid solution, the code
     does not check it)."""
     n = rng.randint(3, 8)
     T = T or rng.randint(3, 6)
     ids = rng.sample(range(1, 90), n)
+    if rng.random() < zero_p:
+        ids[rng.randrange(n)] = 0     # node id 0 (0-based tables; only without a label array)
     ts = gen_times(rng, n, T)
     times = dict(zip(ids, ts))
     order = sorted(ids, key=lambda i: (times[i], rng.random()))
@@ -331,7 +333,7 @@ def run(ctx):
     try:
         # ---- K: export_to_csv + filter_graph_with_ancestors on solution forests
         for fi in range(n_forests_k):
-            times, edges, merged = gen_forest(rng)
+            times, edges, merged = gen_forest(rng, zero_p=0.3)
             per_axis = (not merged) and rng.random() < 0.3   # (a copy of a merge graph may order the parents differently)
             tracks = make_tracks_axes(times, edges) if per_axis else make_tracks(times, edges)
             g = tracks.graph.copy() if per_axis else tracks.graph   # reference copy: the export must not prune the live graph
@@ -412,7 +414,7 @@ def run(ctx):
         for zi in range(n_z):
             with_seg = rng.random() < 0.75
             long_t = with_seg and rng.random() < 0.12
-            times, edges, merged = gen_forest(rng, T=CHUNK + 3 if long_t else None, merge_p=0.03)
+            times, edges, merged = gen_forest(rng, T=CHUNK + 3 if long_t else None, merge_p=0.03, zero_p=0.0 if with_seg else 0.4)
             seg = gen_seg(rng, times, long_t=long_t) if with_seg else None
             tracks = make_tracks(times, edges, seg=seg)
             g = tracks.graph
